@@ -229,6 +229,53 @@ pub fn gen_c08(o: &mut Out, tier: &str, seed: u64) {
             o.op(&format!("verify.{}.structured", instr), &format!("verify {} {}", instr, hex(&v)));
         }
     }
+    range_untrusted(o, &mut r, th);
+}
+
+/// range-proof verification on untrusted bytes: lengths, fills, structured garbage with a well-formed context
+fn range_untrusted(o: &mut Out, r: &mut Rng, th: bool) {
+    let specials = special_values();
+    let widths: Vec<(usize, usize)> = if th { vec![(64, 672), (128, 736), (256, 800)] } else { vec![(64, 672)] };
+    for (w, plen) in widths {
+        let n = 264 + plen;
+        for len in [0usize, 1, 31, 32, 263, 264, 265, 264 + 224, n - 64, n - 32, n - 1, n, n + 1, n + 32, n + 64, 2 * n] {
+            o.op("verify.range.length", &format!("verify range{} {}", w, hex(&r.bytes(len))));
+        }
+        for (_, sv) in specials.iter() {
+            let mut v = vec![];
+            while v.len() < n { v.extend(sv); }
+            v.truncate(n);
+            o.op("verify.range.fill", &format!("verify range{} {}", w, hex(&v)));
+        }
+        for _ in 0..(if th { 30 } else { 8 }) {
+            // well-formed context: k commitments (valid points), bit lengths summing to the width (or not), zero padding
+            let k = 1 + r.below(8) as usize;
+            let mut v = vec![0u8; n];
+            for i in 0..k { v[32 * i..32 * i + 32].copy_from_slice(&valid_point(r)); }
+            let mut left = w;
+            for i in 0..k {
+                let b = if i == k - 1 { left.min(255) } else { (1 + r.below(64) as usize).min(left.saturating_sub(k - 1 - i).max(1)) };
+                v[256 + i] = b as u8;
+                left = left.saturating_sub(b);
+            }
+            if r.below(4) == 0 { v[256] = v[256].wrapping_add(1); }
+            // proof: valid points / scalars in the slots, then one special value somewhere
+            let mut off = 264;
+            while off + 32 <= n {
+                let slot = (off - 264) / 32;
+                let is_scalar = (4..7).contains(&slot) || off + 64 >= n;
+                let val = if is_scalar { valid_scalar(r) } else { valid_point(r) };
+                v[off..off + 32].copy_from_slice(&val);
+                off += 32;
+            }
+            if r.below(2) == 0 {
+                let f = r.below((plen / 32) as u64) as usize;
+                let sv = r.pick(&specials).1;
+                v[264 + 32 * f..264 + 32 * f + 32].copy_from_slice(&sv);
+            }
+            o.op("verify.range.structured", &format!("verify range{} {}", w, hex(&v)));
+        }
+    }
 }
 
 pub fn gen_c12(o: &mut Out, tier: &str, seed: u64) {
@@ -550,6 +597,21 @@ pub fn gen_c10(o: &mut Out, tier: &str, seed: u64) {
     for b in ["65536", "65537", "131072", "4294967296"] {
         o.op_exp("batch-refused", "err", &format!("dlog {} {} - {}", t, k, b));
     }
+    // sequences of configuration calls on one instance: only the last accepted value of each setting counts,
+    // and a refused call leaves the instance unchanged
+    let seqs = ["t4+t1", "t16+t1", "t1+t4", "t64+t2", "t2+t64+t1", "b33+t4+b1000", "t4+b33+t1+b32", "t8+t3?", "t8+t3?+t1",
+                "b100+b65536?", "t4+b70000?+t1", "t1024+t1+t1024", "b1+t256+b65535", "t3?+b65536?"];
+    for (i, x) in xs.iter().enumerate() {
+        if !th && i % 4 != (seed % 4) as usize { continue; }
+        let t = hp(&(Scalar::from(*x) * G));
+        let k = hs(&Scalar::from(*x));
+        for (j, sq) in seqs.iter().enumerate() {
+            if !th && (i + j) % 3 != 0 { continue; }
+            o.op_exp("setter-sequence", &format!("some:{}", x), &format!("dlogseq {} {} {}", t, k, sq));
+        }
+    }
+    o.op_exp("setter-sequence-refused", "err", &format!("dlogseq {} {} t4+t3+t1", t, k));
+    o.op_exp("setter-sequence-refused", "err", &format!("dlogseq {} {} b33+b65536", t, k));
     // repeated threaded runs (every interleaving must give the same answer)
     for _ in 0..(if th { 200 } else { 16 }) {
         let x = r.below(1 << 32);
